@@ -139,16 +139,20 @@ void bn_set_bit(bn_t a, uint_t bit, int value) {
 
 	RLC_RIP(bit, d, bit);
 
-	bn_grow(a, d);
+	bn_grow(a, d + 1);
 
 	if (value == 1) {
-		a->dp[d] |= ((dig_t)1 << bit);
 		if ((d + 1) > a->used) {
+			/* Digits above the used ones hold no defined value. */
+			dv_zero(a->dp + a->used, d + 1 - a->used);
 			a->used = d + 1;
 		}
+		a->dp[d] |= ((dig_t)1 << bit);
 	} else {
-		a->dp[d] &= ~((dig_t)1 << bit);
-		bn_trim(a);
+		if (d < a->used) {
+			a->dp[d] &= ~((dig_t)1 << bit);
+			bn_trim(a);
+		}
 	}
 }
 
